@@ -917,8 +917,14 @@ package jsonpath
 //@ extern regexp.Compile
 //@   modifies heap:alloc
 //@   ensures ret1 == nil ==> ret0 != nil
+// Assumed contract of encoding/json for a *string target: the string stored and the error are functions of the input bytes
+// (jsonDec / jsonErr: RFC 8259 string decoding, not modelled further).
+//@ smt (declare-fun jsonDec ((Array Int Int) Int Int) Str)
+//@ smt (declare-fun jsonErr ((Array Int Int) Int Int) Val)
 //@ extern json.Unmarshal
 //@   modifies heap:C_Str, heap:alloc
+//@   ensures dec: isType(v, *string) ==> C_Str[asType(v, *string)] == jsonDec(old(A_Int[arr(data)]), off(data), len(data))
+//@   ensures err: ret == jsonErr(old(A_Int[arr(data)]), off(data), len(data))
 //@ extern (*regexp.Regexp).ReplaceAllStringFunc
 //@   pure
 //@ extern (*regexp.Regexp).FindStringSubmatch
@@ -935,9 +941,10 @@ package jsonpath
 //@   panics ErrorInvalidArgument
 
 //@ func (*jsonPathParser)._unescapeJSONString
-//@   props C02 C19
+//@   props C02 C19 C16
 //@   parsetime
 //@   requires p != nil
+//@   ensures dec: ret0 == jsonDec(old(A_Int[arr(input)]), off(input), len(input)) && ret1 == jsonErr(old(A_Int[arr(input)]), off(input), len(input))
 
 //@ func (*jsonPathParser).deleteRootIdentifier
 //@   props C02 C19
@@ -978,9 +985,12 @@ package jsonpath
 //@   requires nodeOK(node) && nodeOK(appendNode)
 
 //@ func (*jsonPathParser).pushChildSingleIdentifier
-//@   props C02 C19
+//@   props C02 C19 C16
 //@   parsetime
 //@   requires p != nil
+//@   requires wf(p.params)
+// C16: the node pushed looks up exactly the (unescaped) text it was given
+//@   ensures node: len(p.params) == old(len(p.params)) + 1 && isType(topParam(p), *syntaxChildSingleIdentifier) && asType(topParam(p), *syntaxChildSingleIdentifier) != nil && asType(topParam(p), *syntaxChildSingleIdentifier).identifier == text
 
 //@ func (*jsonPathParser).pushChildWildcardIdentifier
 //@   props C02 C19
@@ -1219,18 +1229,43 @@ package jsonpath
 //@   requires p != nil
 //@   requires p.unescapeRegex != nil
 
+// C16: the bracket spellings.  A double-quoted name is decoded as the JSON string literal `"` + text + `"` (dqJson);
+// a single-quoted name is first re-escaped byte by byte into a JSON string literal by the table
+//     \'  ->  '        "  ->  \"        \x  ->  \x  (any other escaped byte, including \\)        x  ->  x
+// and then decoded the same way (sqJson).  sqEsc(t, k): byte k of t follows an unpaired backslash; sqPos(t, k): length of
+// the output after k input bytes (the opening quote included).  sqValid: what the grammar's singleQuotedNodeIdentifier
+// admits as far as the table cares (no bare ', no \").
+//@ smt (declare-fun sqEsc (Str Int) Bool)
+//@ smt (declare-fun sqPos (Str Int) Int)
+//@ smt (declare-fun sqJson (Str) Str)
+//@ smt (declare-fun dqJson (Str) Str)
+//@ smt (define-fun sqW ((t Str) (i Int)) Int (ite (sqEsc t i) (ite (= (byteAt t i) 39) 1 2) (ite (= (byteAt t i) 92) 0 (ite (= (byteAt t i) 34) 2 1))))
+//@ smt (assert (forall ((t Str)) (! (and (not (sqEsc t 0)) (= (sqPos t 0) 1)) :pattern ((strlen t)) :pattern ((sqPos t 0)) :pattern ((sqEsc t 0)))))
+//@ smt (assert (forall ((t Str) (i Int)) (! (=> (<= 0 i) (and (= (sqEsc t (+ i 1)) (and (not (sqEsc t i)) (= (byteAt t i) 92))) (= (sqPos t (+ i 1)) (+ (sqPos t i) (sqW t i))))) :pattern ((byteAt t i)))))
+//@ smt (define-fun sqCellS ((A (Array Int Int)) (t Str) (k Int)) Bool (ite (sqEsc t k) (ite (= (byteAt t k) 39) (= (select A (sqPos t k)) 39) (and (= (select A (sqPos t k)) 92) (= (select A (+ (sqPos t k) 1)) (byteAt t k)))) (ite (= (byteAt t k) 92) true (ite (= (byteAt t k) 34) (and (= (select A (sqPos t k)) 92) (= (select A (+ (sqPos t k) 1)) 34)) (= (select A (sqPos t k)) (byteAt t k))))))
+// sqJson(t) / dqJson(t) name the decoding of the byte sequence the table / the plain quoting determines (definitional)
+//@ smt (assert (forall ((A (Array Int Int)) (n Int) (t Str)) (! (=> (and (= n (+ (sqPos t (strlen t)) 1)) (= (select A 0) 34) (= (select A (- n 1)) 34) (forall ((k Int)) (=> (and (<= 0 k) (< k (strlen t))) (sqCellS A t k)))) (= (jsonDec A 0 n) (sqJson t))) :pattern ((jsonDec A 0 n) (strlen t)))))
+//@ smt (assert (forall ((A (Array Int Int)) (n Int) (t Str)) (! (=> (and (= n (+ (strlen t) 2)) (= (select A 0) 34) (= (select A (- n 1)) 34) (forall ((k Int)) (=> (and (<= 0 k) (< k (strlen t))) (= (select A (+ k 1)) (byteAt t k))))) (= (jsonDec A 0 n) (dqJson t))) :pattern ((jsonDec A 0 n) (strlen t)))))
+//@ spec sqCell(out []byte, text string, k int) bool = sqEsc(text, k) ? (byteAt(text, k) == 39 ? elemAt(out, sqPos(text, k)) == 39 : (elemAt(out, sqPos(text, k)) == 92 && elemAt(out, sqPos(text, k) + 1) == byteAt(text, k))) : (byteAt(text, k) == 92 ? true : (byteAt(text, k) == 34 ? (elemAt(out, sqPos(text, k)) == 92 && elemAt(out, sqPos(text, k) + 1) == 34) : elemAt(out, sqPos(text, k)) == byteAt(text, k)))
+//@ spec sqValid(text string) bool = forall k {byteAt(text, k)} :: 0 <= k && k < len(text) ==> (sqEsc(text, k) ==> byteAt(text, k) != 34) && (!sqEsc(text, k) ==> byteAt(text, k) != 39)
+
 //@ func (*jsonPathParser).unescapeDoubleQuotedString
-//@   props C02 C19
+//@   props C02 C19 C16
 //@   parsetime
 //@   requires p != nil
 //@   panics ErrorInvalidArgument
+//@   ensures image: ret == dqJson(text)
 
 //@ func (*jsonPathParser).unescapeSingleQuotedString
-//@   props C02 C19
+//@   props C02 C19 C16
 //@   parsetime
 //@   requires p != nil
 //@   panics ErrorInvalidArgument
-//@   loop 1 invariant wf(inputBytes) && mine(inputBytes)
+//@   ensures image: sqValid(text) ==> ret == sqJson(text)
+//@   loop 1 invariant wf(inputBytes) && mine(inputBytes) && off(inputBytes) == 0 && len(rangeslice1) == len(text) && arr(rangeslice1) != arr(inputBytes)
+//@   loop 1 invariant bytes: forall k {elemAt(rangeslice1, k)} :: 0 <= k && k < len(text) ==> elemAt(rangeslice1, k) == byteAt(text, k)
+//@   loop 1 invariant pos: sqValid(text) ==> len(inputBytes) == sqPos(text, rangeindex1 + 1) && foundEscape == sqEsc(text, rangeindex1 + 1) && elemAt(inputBytes, 0) == 34
+//@   loop 1 invariant cells: sqValid(text) ==> (forall k {byteAt(text, k)} {sqPos(text, k)} :: 0 <= k && k <= rangeindex1 ==> sqCell(inputBytes, text, k) && 1 <= sqPos(text, k) && sqPos(text, k) + sqW(text, k) <= len(inputBytes))
 
 //@ func (*jsonPathParser).updateAccessorMode
 //@   props C02 C19
